@@ -204,13 +204,17 @@ class Simplifier(walkers.dag.DagWalker):
                             variable, value = value, variable
                         value_free_vars = (
                             self.environment.free_vars_oracle.get_free_variables(
-                                args[0]
+                                value
                             )
                         )
+                        # the variable can be replaced by the value only if the value
+                        # does not mention it and is a legal value for it (the value
+                        # might be an expression of a supertype)
                         if (
                             variable.is_variable_exp()
                             and variable.variable() in vars
-                            and variable not in value_free_vars
+                            and variable.variable() not in value_free_vars
+                            and variable.type.is_compatible(value.type)
                         ):
                             check_equality_simplification = True
                             new_arg = self.manager.And(
